@@ -313,7 +313,7 @@ RULES = [
 
 
 from . import shared
-RULES = RULES + shared.bundle('C02', [], ['weights'])
+RULES = RULES + shared.bundle('C02', ['dim'], ['weights'])
 from .. import refs as _refs
 RULES = RULES + [_refs.ref_rule('C02')]
 
